@@ -286,6 +286,12 @@ def stepCb (m : CbMode) (cfg : Cfg) (s : State) (op : Op) : Out × Bool :=
         (step cfg s op).ret, [.change a b], (step cfg s op).lock, (step cfg s op).tag⟩, true)
     | _ => (step cfg s op, false)
 
+/-- a history in which every call runs under the callbacks installed at that moment (returning or raising) and under
+    the configuration in force at that moment (public attributes may have been re-assigned in between) -/
+def runCb (s : State) : List (CbMode × Cfg × Op) → State
+  | [] => s
+  | (m, cfg, op) :: rest => runCb (stepCb m cfg s op).1.st rest
+
 /-! ## Several lifecycles alive at once
 
 The lifecycles of one process share nothing but the clock (`datetime.now()`).  A world is an association list
